@@ -4,6 +4,7 @@ import Driver.Recv
 import Driver.Gen
 import Driver.Parse
 import Driver.Proc
+import Driver.Fill
 
 /-!
 Line-protocol driver: one case per input line, `tag \t fields… \t observed`, one answer per line,
@@ -18,6 +19,7 @@ def dispatch (line : String) : String :=
   | "gen" :: rest => (handleGen rest).getD "BAD-CASE\t0"
   | "netparse" :: rest => (handleNetParse rest).getD "BAD-CASE\t0"
   | "proc" :: rest => (handleProc rest).getD "BAD-CASE\t0"
+  | "fill" :: rest => (handleFill rest).getD "BAD-CASE\t0"
   | "pports" :: rest => (handlePPorts rest).getD "BAD-CASE\t0"
   | "prate" :: rest => (handlePRate rest).getD "BAD-CASE\t0"
   | "ppayload" :: rest => (handlePPayload rest).getD "BAD-CASE\t0"
